@@ -595,31 +595,71 @@ func ruleHandlerConsume(c *Ctx, rule string) {
 			return ok && k == 0
 		})
 	}
+	lastM := l.Method(modPath, "errHandlers", "last")
 	check := func(fn *ssa.Function, what string, fields ...int) {
-		for _, f := range fields {
-			pred := zeroStore(f)
-			// from the true outcome of the handler-present test (or from the entry if there is none)
-			ok := false
-			tested := false
-			for _, b := range fn.Blocks {
-				iff, isIf := b.Instrs[len(b.Instrs)-1].(*ssa.If)
-				if !isIf {
+		// the tests "does the frame have a handler": hasHandler(), or a comparison of
+		// last() with nil; hasSucc is the successor taken when it has one
+		type test struct {
+			iff     *ssa.If
+			hasSucc *ssa.BasicBlock
+		}
+		var tests []test
+		for _, b := range fn.Blocks {
+			if len(b.Instrs) == 0 {
+				continue
+			}
+			iff, isIf := b.Instrs[len(b.Instrs)-1].(*ssa.If)
+			if !isIf {
+				continue
+			}
+			switch cnd := iff.Cond.(type) {
+			case *ssa.Call:
+				if hasH != nil && cnd.Call.StaticCallee() == hasH {
+					tests = append(tests, test{iff, b.Succs[0]})
+				}
+			case *ssa.BinOp:
+				if cnd.Op != token.EQL && cnd.Op != token.NEQ {
 					continue
 				}
-				cl, isCall := iff.Cond.(*ssa.Call)
-				if !isCall || hasH == nil || cl.Call.StaticCallee() != hasH {
-					continue
-				}
-				tested = true
-				first := b.Succs[0].Instrs[0]
-				if pred(first) {
-					ok = true
-				} else if _, good := mustPassBefore(first, pred, isReturn); good {
-					ok = true
+				for _, pr := range [][2]ssa.Value{{cnd.X, cnd.Y}, {cnd.Y, cnd.X}} {
+					k, isNil := pr[1].(*ssa.Const)
+					cl, isCall := pr[0].(*ssa.Call)
+					if isNil && k.IsNil() && isCall && lastM != nil && cl.Call.StaticCallee() == lastM {
+						if cnd.Op == token.EQL {
+							tests = append(tests, test{iff, b.Succs[1]})
+						} else {
+							tests = append(tests, test{iff, b.Succs[0]})
+						}
+					}
 				}
 			}
-			if !tested {
-				_, ok = mustPassBefore(fn.Blocks[0].Instrs[0], pred, isReturn)
+		}
+		for _, f := range fields {
+			pred := zeroStore(f)
+			ok := true
+			for _, t := range tests {
+				first := t.hasSucc.Instrs[0]
+				if pred(first) {
+					continue
+				}
+				if _, good := mustPassBefore(first, pred, isReturn); !good {
+					ok = false
+				}
+			}
+			// no path reaches a return without either such a test or the store
+			isTest := func(ins ssa.Instruction) bool {
+				for _, t := range tests {
+					if ins == ssa.Instruction(t.iff) {
+						return true
+					}
+				}
+				return false
+			}
+			first := fn.Blocks[0].Instrs[0]
+			if !pred(first) && !isTest(first) {
+				if _, good := mustPassBefore(first, func(x ssa.Instruction) bool { return pred(x) || isTest(x) }, isReturn); !good {
+					ok = false
+				}
 			}
 			name := "catch"
 			if f == fFin {
